@@ -139,6 +139,7 @@ def jitter_lib():
 
 
 JITTER_LIB = [None]
+MAX_TRACE_LINES = 400000
 
 
 def run_config(binary, c, threads, jitter=None, trace=True, timeout=60):
@@ -153,10 +154,23 @@ def run_config(binary, c, threads, jitter=None, trace=True, timeout=60):
         if jitter:
             env["LD_PRELOAD"] = JITTER_LIB[0]
             env["CMAC_VERIF_JITTER"] = jitter
+        # the trace is read here (bounded): a defective run can log without end
+        tr = os.path.join(d, "trace.txt")
+        if trace:
+            env["CMAC_VERIF_TRACE"] = tr
         if c.get("rhd"):
-            res = simrun.run_sim(binary, rhd_param(c), ["--task-based-rhd", "--number-of-steps", "1"], threads=threads, timeout=timeout, trace=trace, env=env, workdir=d)
+            res = simrun.run_sim(binary, rhd_param(c), ["--task-based-rhd", "--number-of-steps", "1"], threads=threads, timeout=timeout, trace=False, env=env, workdir=d)
         else:
-            res = simrun.run_sim(binary, ion_param(c), ["--task-based"], threads=threads, timeout=timeout, trace=trace, env=env, workdir=d)
+            res = simrun.run_sim(binary, ion_param(c), ["--task-based"], threads=threads, timeout=timeout, trace=False, env=env, workdir=d)
+        lines = []
+        if trace and os.path.exists(tr):
+            with open(tr, errors="replace") as f:
+                for l in f:
+                    lines.append(l.rstrip("\n"))
+                    if len(lines) >= MAX_TRACE_LINES:
+                        res["trace_truncated"] = True
+                        break
+        res["trace"] = lines
         res["diagnostics"] = sorted(f for f in os.listdir(d) if f.startswith("diagnostics_"))
         return res
     finally:
